@@ -356,8 +356,14 @@ class HybridClass(metaclass=MetaHybridClass):
                 out[ff] = vv.to_dict()
             elif hasattr(vv, "_to_dict"):
                 out[ff] = vv._to_dict()
-            elif ff not in defaults or np.any(defaults[ff] != vv):
-                # Only include those scalar values that are not default.
+            elif (
+                ff not in defaults
+                or np.shape(defaults[ff]) != np.shape(vv)
+                or np.any(defaults[ff] != vv)
+            ):
+                # Only include those scalar values that are not default
+                # (an array of another shape is not the default, even if
+                # broadcasting would make it compare equal).
                 out[ff] = vv
 
         return out
